@@ -196,6 +196,30 @@ def run():
                 if r == z3.sat:
                     m = s.model()
                     vals = {k: (m.eval(v, model_completion=True).as_string() if m.eval(v, model_completion=True) is not None else '') for k, v in (('channel', ch), ('sender', snd), ('prefix', pfx))}
+                    if _UF:
+                        # the derivation passes an input through an uninterpreted library function: look for a model among
+                        # concrete candidates on which that function is given its real meaning, so that the model replays
+                        py = {'to_lowercase': str.lower, 'to_uppercase': str.upper, 'to_ascii_lowercase': str.lower, 'to_ascii_uppercase': str.upper, 'trim': str.strip, 'trim_start': str.lstrip, 'trim_end': str.rstrip}
+                        base = {'channel': 'channel-1', 'sender': 'celestia1qqqqqqqqqqqqqqqqqqqqqqqqqqqqqqqqnrql8a', 'prefix': 'osmo'}
+                        cands = []
+                        for k in ('sender', 'channel', 'prefix'):
+                            for alt in (base[k].upper(), ' ' + base[k], base[k] + ' ', base[k][:3].upper() + base[k][3:]):
+                                c = dict(base)
+                                c[k] = alt
+                                cands.append(c)
+                        for c in cands:
+                            s2 = z3.Solver()
+                            s2.set('timeout', 20000)
+                            s2.add(got.e != spec_e, ch == z3.StringVal(c['channel']), snd == z3.StringVal(c['sender']), pfx == z3.StringVal(c['prefix']))
+                            for name, f in _UF.items():
+                                fn = py.get(name)
+                                if fn is None:
+                                    continue
+                                for val in set(c.values()):
+                                    s2.add(f(z3.StringVal(val)) == z3.StringVal(fn(val)))
+                            if s2.check() == z3.sat:
+                                vals = c
+                                break
                     res['model'] = vals
                     res['replay'] = dict(kind='derive', model=vals)
                 if r == z3.unknown:
